@@ -411,7 +411,10 @@ func c11Payload(c c11Case, k c11Concrete, id string) []byte {
 	return b
 }
 
-func c11Run(t *testing.T, ps *premium.Setting, dir string, idx int, c c11Case) (obs c11Obs, k c11Concrete, payload []byte, internal string) {
+// prior: the same peer has, a moment earlier, sent another request for the same channel that is refused whatever the
+// configuration (protocol version 99, 1000 sat) while the channel still had plenty of capacity; admission of the judged
+// request must depend on the request and the node's state NOW.
+func c11Run(t *testing.T, ps *premium.Setting, dir string, idx int, c c11Case, prior bool) (obs c11Obs, k c11Concrete, payload []byte, internal string) {
 	k = c.concrete()
 	id := c11SwapID(idx, c)
 	payload = c11Payload(c, k, id)
@@ -449,11 +452,25 @@ func c11Run(t *testing.T, ps *premium.Setting, dir string, idx int, c c11Case) (
 			} else {
 				ch.Spendable, ch.Receivable = 0, k.CapMsat
 			}
-			n0 := len(x.W.Log)
 			mt := mtSwapInReq
 			if c.Typ == "out" {
 				mt = mtSwapOutReq
 			}
+			if prior {
+				capNow := [2]uint64{ch.Spendable, ch.Receivable}
+				ch.Spendable, ch.Receivable = 1<<50, 1<<50
+				h := sha256.Sum256([]byte("prior/" + id))
+				m := map[string]any{"protocol_version": 99, "swap_id": hex.EncodeToString(h[:]), "network": k.Network, "asset": k.Asset,
+					"scid": k.Scid, "amount": 1000, "pubkey": k.Pubkey, "acceptable_premium": 1 << 40}
+				pb, _ := json.Marshal(m)
+				_, pp := x.A.DeliverRaw(scn.IDB, fmt.Sprintf("%x", mt), pb)
+				node.Settle()
+				if pp != nil {
+					obs.Panic = fmt.Sprint(pp)
+				}
+				ch.Spendable, ch.Receivable = capNow[0], capNow[1]
+			}
+			n0 := len(x.W.Log)
 			err, p := x.A.DeliverRaw(scn.IDB, fmt.Sprintf("%x", mt), payload)
 			node.Settle()
 			if p != nil {
@@ -627,12 +644,25 @@ func c11Shard(t *testing.T, cases []c11Case, shard, n int) c11Result {
 		if i%n != shard {
 			continue
 		}
-		obs, k, payload, internal := c11Run(t, ps, dir, i, c)
+		obs, k, payload, internal := c11Run(t, ps, dir, i, c, false)
 		if internal != "" {
 			res.Internal = append(res.Internal, fmt.Sprintf("case %d %v: %s", i, c.describe(), internal))
 			continue
 		}
 		res.Transitions++
+		// the same case after an earlier, refused request of the same peer on the same channel: same verdict
+		if obs2, _, _, internal2 := c11Run(t, ps, dir, i, c, true); internal2 != "" {
+			res.Internal = append(res.Internal, fmt.Sprintf("case %d %v (after an earlier request): %s", i, c.describe(), internal2))
+		} else {
+			res.Transitions++
+			if obs2.Agreement != obs.Agreement || obs2.Panic != "" {
+				b, _ := json.Marshal(c.describe())
+				addV(c, fmt.Sprintf("verdict_depends_on_earlier_refused_request:type=swap_%s:alone=%s:after_earlier=%s", c.Typ, obs.class(), obs2.class()),
+					fmt.Sprintf("request %s\nalone: %s; after an earlier request of the same peer for the same channel (protocol version 99, 1000 sat, refused; the channel had 2^50 msat of capacity at that moment, now %d msat): %s cancel_message=%q panic=%q\ncase: %s", payload, obs.class(), k.CapMsat, obs2.class(), obs2.CancelMsg, obs2.Panic, b))
+			} else {
+				res.Outcomes["after_earlier_refused_request:same_verdict"]++
+			}
+		}
 		fails := c11Expect(c, k)
 		typ := "swap_" + c.Typ
 		detail := func(what string) string {
@@ -863,8 +893,8 @@ func TestC11(t *testing.T) {
 		}
 		rep.Violations = append(rep.Violations, mc.Violation{Property: "C11", Key: key + ":reply=" + v.Reply, Detail: v.Detail})
 	}
-	if rep.Transitions != len(cases) && len(rep.Internal) == 0 {
-		rep.Internal = append(rep.Internal, fmt.Sprintf("executed %d of %d cases", rep.Transitions, len(cases)))
+	if rep.Transitions != 2*len(cases) && len(rep.Internal) == 0 {
+		rep.Internal = append(rep.Internal, fmt.Sprintf("executed %d of %d runs (every case alone and after an earlier refused request)", rep.Transitions, 2*len(cases)))
 	}
 	rep.States = len(classes)
 	var cl []string
